@@ -178,6 +178,7 @@ class SimEnv:
         self.dir = None
         self.registries = []
         self.canon = None
+        self.tracer = None
         self.glob_calls = []
         self.glob_rng = random.Random(spec.get("glob_seed", 0))
 
@@ -298,12 +299,19 @@ class SimEnv:
         os.environ.pop("TRAVIS", None)
         os.environ.pop("FORCE_COVERAGE", None)
         sys.argv = [self.spec.get("argv0", "json_to_models")] + argv
-        sys.stdout = out = io.StringIO()
+        class _Out(io.StringIO):
+            first_write_at = None
+
+            def write(self, text):
+                if self.first_write_at is None and text and env.tracer is not None:
+                    self.first_write_at = env.tracer.count
+                return super().write(text)
+
+        sys.stdout = out = _Out()
         sys.stderr = err = io.StringIO()
         os.chdir(self.dir)
         status, exc = 0, None
         tracer = None
-        self.tracer = None
         if self.spec.get("syspath"):
             sys.path.insert(0, self.dir)
         try:
@@ -352,6 +360,7 @@ class SimEnv:
             rec["crash_fired"] = tracer.fired
             rec["marks"] = tracer.marks
             rec["out_changed_at"] = tracer.changed_at
+            rec["stdout_first_write_at"] = out.first_write_at
         if out_path:
             if os.path.lexists(out_path) and os.path.isfile(out_path):
                 with open(out_path, "rb") as fh:
